@@ -44,7 +44,8 @@ def gen_blob_doc(draw):
         fields.append("LEN")
         if draw(st.booleans()):
             poly = {"t": "poly", "terms": draw(st.sampled_from([[[8.0, 1]], [[1.0, 1]], [[8.0, 1], [8.0, 0]],
-                                                                [[2.0, 1], [1.0, 0]], [[1.0, 2]]]))}
+                                                                [[2.0, 1], [1.0, 0]], [[1.0, 2]], [[0.5, 1]],
+                                                                [[0.25, 1], [0.5, 0]]]))}
             types.append(_int_type("CLEN", draw(st.sampled_from([8, 5, 4, 3])), dcal=poly))
             fields.append("CLEN")
     if offset:
@@ -60,7 +61,12 @@ def gen_blob_doc(draw):
         ref = draw(st.sampled_from([f for f in fields if f in ("LEN", "CLEN")]))
         cal = draw(st.booleans())
         adj = None
-        if draw(st.integers(0, 2)):
+        clen = [t for t in types if t["name"] == "CLEN_T"]
+        fractional = ref == "CLEN" and cal and any(float(c) != int(c) for c, _ in clen[0]["enc"]["dcal"]["terms"])
+        if fractional:
+            # the calibrated reference may be fractional (e.g. a half-byte counter): the slope makes the length integral
+            adj = {"slope": draw(st.sampled_from([8, 16, 4, 32])), "intercept": draw(st.sampled_from([0, 0, 8, 16]))}
+        elif draw(st.integers(0, 2)):
             adj = {"slope": draw(st.sampled_from([8, 8, 1, 2, 16, 3, 0])), "intercept": draw(st.sampled_from([0, 0, 8, 16, 1, 5, 24]))}
             if is_str and adj["slope"] == 0 and adj["intercept"] == 0:
                 adj["intercept"] = 8
